@@ -27,7 +27,7 @@ import (
 )
 
 // identity kinds of a server
-var identities = []string{"genuine", "issued-by-second-ca", "foreign-ca", "self-signed", "expired", "expired-one-minute-ago", "not-yet-valid", "valid-in-one-minute", "wrong-name", "name-of-first-endpoint", "system-pool-only", "dns-name-only", "genuine-no-eku", "issued-by-client-cert-issuer", "genuine-rsa-key", "genuine-p384-p521-groups-only"}
+var identities = []string{"genuine", "issued-by-second-ca", "foreign-ca", "self-signed", "expired", "expired-one-minute-ago", "not-yet-valid", "valid-in-one-minute", "wrong-name", "name-of-first-endpoint", "system-pool-only", "dns-name-only", "genuine-no-eku", "issued-by-client-cert-issuer", "genuine-rsa-key", "genuine-p384-p521-groups-only", "genuine-with-stale-extra-certificate"}
 var protocols = []string{"tls12+", "tls12-only", "tls13-only", "tls10-11-only"}
 var clientPolicies = []string{"none", "request", "require-any", "require-verify", "require-any-other-ca-hint"}
 
@@ -41,7 +41,7 @@ type variant struct {
 // matches the endpoint address, is currently valid and speaks TLS >= 1.2.
 func (v variant) genuine(bundle string) bool {
 	switch v.Identity {
-	case "genuine", "genuine-no-eku", "genuine-rsa-key", "genuine-p384-p521-groups-only":
+	case "genuine", "genuine-no-eku", "genuine-rsa-key", "genuine-p384-p521-groups-only", "genuine-with-stale-extra-certificate":
 	case "issued-by-second-ca":
 		if bundle == "one-file-one-ca" {
 			return false
@@ -392,6 +392,10 @@ func judge(r *ev.Run, c *ev.Case, rec caseRec, bundle []string, clientCert, clie
 			cert = ca1.Issue(caserver.Leaf{CN: "crypki", IPs: []string{ip}, RSA: true})
 		case "genuine-p384-p521-groups-only": // a front end whose policy allows the larger NIST groups only
 			cert = ca1.Issue(caserver.Leaf{CN: "crypki", IPs: []string{ip}})
+		case "genuine-with-stale-extra-certificate": // the server's certificate message also carries a lapsed certificate that is not on the path
+			cert = ca1.Issue(caserver.Leaf{CN: "crypki", IPs: []string{ip}})
+			stale := ca1.Issue(caserver.Leaf{CN: "old cross certificate", NotBefore: now.Add(-2000 * time.Hour), NotAfter: now.Add(-1000 * time.Hour)})
+			cert.Certificate = append(cert.Certificate, stale.Certificate[0])
 		case "issued-by-client-cert-issuer":
 			cert = clientIssuer.Issue(caserver.Leaf{CN: "crypki", IPs: []string{ip}})
 		case "dns-name-only":
